@@ -22,6 +22,7 @@ type NativeItem struct {
 }
 
 type NativeResult struct {
+	Race    bool   // the race detector reported a data race during this process run
 	Outcome string // ok | assume | assertfail | panic | hang | crash | exit | vector-exhausted | noharness
 	Detail  string
 	Obs     []string
@@ -36,6 +37,7 @@ type Native struct {
 	env    []string
 	BuildS float64
 	Params string
+	Race   bool // build with the race detector (go1.26.8; the default toolchain has no race runtime)
 }
 
 func NewNative(P *Program) (*Native, error) {
@@ -77,7 +79,14 @@ func (n *Native) build(pkg string) (string, error) {
 	ovf := filepath.Join(n.Dir, "overlay_"+strings.ReplaceAll(pkg, "/", "_")+".json")
 	os.WriteFile(ovf, ovb, 0644)
 	bin := filepath.Join(n.Dir, strings.ReplaceAll(pkg, "/", "_")+".test")
-	cmd := exec.Command("go", "test", "-c", "-vet=off", "-overlay", ovf, "-o", bin, "./"+pkg)
+	gobin, extra := "go", []string{}
+	if n.Race {
+		gobin, extra = "go1.26.8", []string{"-race"}
+		bin += ".race"
+	}
+	argv := append([]string{"test", "-c", "-vet=off"}, extra...)
+	argv = append(argv, "-overlay", ovf, "-o", bin, "./"+pkg)
+	cmd := exec.Command(gobin, argv...)
 	cmd.Dir = n.P.RepoDir
 	cmd.Env = n.env
 	out, err := cmd.CombinedOutput()
@@ -173,6 +182,14 @@ func (n *Native) Run(pkg string, items []NativeItem, timeoutMs int) (map[string]
 					lastEnded = curIdx
 					cur = nil
 				}
+			}
+		}
+		if strings.Contains(stderr.String(), "WARNING: DATA RACE") {
+			for _, r := range res {
+				r.Race = true
+			}
+			if cur != nil {
+				cur.Race = true
 			}
 		}
 		if cur != nil {
